@@ -58,7 +58,18 @@ def build_rule(rr):
         except Exception:        # not expressible as a spec after all (what specs can say is C09 / C10's business)
             pass
 
-    path = dp.DataPath(*[gen.build_part(p) for p in rr["rparts"]])
+    parts = [gen.build_part(p) for p in rr["rparts"]]
+    path = dp.DataPath(*parts)
+    import zlib
+    h = zlib.crc32(repr(rr["rparts"]).encode())
+    if len(parts) >= 2 and h % 5 == 0 and any(not isinstance(p, tuple) for p in rr["rparts"]):
+        # the same path JOINED from two paths with `/` (Ext.tla ConcatPath: the parts concatenated; with a fan-out part
+        # on either side the result is not concrete, like the path built in one go)
+        k = 1 + (h // 5) % (len(parts) - 1)
+        path = dp.DataPath(*parts[:k]) / dp.DataPath(*parts[k:])
+    if rr.get("pdt", "none") != "none" or rr.get("pmt", "none") != "none":
+        from harness.props.pathdrv import apply_mods
+        path = apply_mods(path, rr.get("pdt", "none"), rr.get("pmt", "none"), "dm")
     return valida.Rule(path=path, condition=build_cond(rr["cond"]), cast=cast_dict(rr.get("cast")))
 
 
@@ -115,12 +126,13 @@ def enc_tree_r(t):
 
 
 def enc_rule_recipe(rr):
-    return {"rparts": [enc_rpart(p) for p in rr["rparts"]], "dt": "none", "mt": "none",
+    return {"rparts": [enc_rpart(p) for p in rr["rparts"]], "dt": rr.get("pdt", "none"), "mt": rr.get("pmt", "none"),
             "rcond": enc_tree_r(rr["cond"]), "cast": cast_term(rr.get("cast"))}
 
 
 def lit_rule(rr):
-    return {"rparts": to_lit(rr["rparts"]), "cond": to_lit(_lit_tree(rr["cond"])), "cast": rr.get("cast")}
+    return {"rparts": to_lit(rr["rparts"]), "cond": to_lit(_lit_tree(rr["cond"])), "cast": rr.get("cast"),
+            "pdt": rr.get("pdt", "none"), "pmt": rr.get("pmt", "none")}
 
 
 def _lit_tree(t):
@@ -167,7 +179,8 @@ def unlit_rule(lr):
             return {k: unp(x) for k, x in v.items()}
         return v
 
-    return {"rparts": fix_parts(from_lit(lr["rparts"])), "cond": _fix_tree(from_lit(lr["cond"])), "cast": lr.get("cast")}
+    return {"rparts": fix_parts(from_lit(lr["rparts"])), "cond": _fix_tree(from_lit(lr["cond"])), "cast": lr.get("cast"),
+            "pdt": lr.get("pdt", "none"), "pmt": lr.get("pmt", "none")}
 
 
 # ------------------------------------------------------------------ observations
